@@ -10,6 +10,15 @@ CHECKS = {
  "C09": ("exploration", "E-codec", "bounded-exhaustive enumeration of conformant encodings (order sequences, plane segmentations, raw layouts) decoded by the real code and by a reference decoder transcribed from the specification",
          "Enumerates encodings, not images: every sequence of <=3 (<=4 thorough) interleaved-RLE orders over all 12 order kinds x short/extended/mega-mega forms x every fitting run length x a 3-colour palette that the MS-RDPBCGR 3.1.9 reference decoder maps onto a complete tiny image; larger shapes with <=2 orders for extended forms and special orders; every plane vector over five values x every scan-line segmentation for planar 32 bpp plus wide lines for both long-run escapes; raw 16/32 bpp bottom-up layouts; all 65536 5-6-5 values. Oracle: decompress() == reference image, top-down BGRA.",
          "Order sequences where a bg/fg/FGBG order straddles the end of the first scan line are excluded (spec prose and pseudo-code disagree) and counted in the evidence. Trusted: vref::rle (self-tested at start-up).", "§4 C09"),
+ "C15": ("exploration", "E-codec", "bounded-exhaustive enumeration of credentials x challenges x target-info blocks x flag sets; every AUTHENTICATE token verified by an independent MS-NLMP server implementation",
+         "Every case drives the real Ntlm::new / from_hash -> create_negotiate_message -> read_challenge_message (client nonce and exported key fixed through hook H1) against a CHALLENGE built by the reference server, and the resulting AUTHENTICATE is verified by vref::ntlm (own MD4/MD5/HMAC/RC4, validated on the MS-NLMP 4.2.4 example): descriptor triples inside the token and non-overlapping, NTProofStr, LMv2, RC4 key-exchange unwrap (must equal the generated key), MIC over the three messages, names in the negotiated encoding; hash-based and password-based logons are verified with the same account key.",
+         "Strings come from a 4-class Unicode alphabet x boundary lengths; cryptographic inputs from boundary patterns. KEY_EXCH/128/ESS stay negotiated. Trusted: vref::ntlm + vref::crypto.", "§4 C15"),
+ "C16": ("exploration", "E-codec", "exhaustive enumeration of operation sequences (wrap/unwrap x lengths) and of all single-bit flips/truncations/extensions of sealed messages against reference MS-NLMP sealing",
+         "All sequences of <=3 (<=4 thorough) wrap/unwrap operations over 10 message lengths and 5 session keys run on the real NTLMv2SecurityInterface (constructed directly and via a real handshake) and compared byte for byte with reference SEAL+SIGN carrying cipher state and sequence numbers; every single-bit flip of every peer-sealed message of length 0..17, 100, 256 (at stream positions 0 and 1), truncations, extensions, reflection and rewritten sequence numbers must be rejected.",
+         "Session keys are 5 boundary/pattern values. Trusted: vref::ntlm::SealCtx (reproduces MS-NLMP 4.2.4.4 at start-up).", "§4 C16"),
+ "C18": ("exploration", "E-codec", "bounded-exhaustive enumeration of message-model shapes and of PER/ASN.1/GCC value domains, each encoded and decoded by the real code and by independent reference codecs",
+         "Every message shape of <=4 nodes (<=5 thorough) over the library's model (integers of both endianness, byte blocks, Check, Trame, nested Component, size-dependent and skippable fields, trailing Option, trailing array) is written, measured and read back; every PER length 0..0x7FFF, PER integers (all u16, u32 boundaries; all 2^32 in thorough), integer16 (value,minimum) pairs and rows (all 2^31 pairs in thorough), every nibble-valid 6-arc OID over 7 values, octet and numeric strings; ASN.1 INTEGER/ENUMERATED/OCTET STRING boundaries and the tagged shapes of MCS/CredSSP against an independent DER codec; GCC request and every response of the reference encoder (versions x optional fields x 0..31 channels x block orders x unknown block).",
+         "PER integer agreement is value-level (non-minimal 0xFF/0xFFFF spelling noted). Trusted: vref::{per,der,gcc}.", "§4 C18"),
  "C13": ("exploration", "E-codec", "bounded-exhaustive enumeration of frame streams x read schedules against a reference deframer, executed on the real tpkt/x224 readers",
          "Every TPKT length field (65536), every short fast-path length x first byte, every 15-bit long-form length, and every read schedule within the bound (caps, every single split, all pairs of splits inside headers, all 2^(n-1) compositions of short streams) is executed on the real tpkt::Client::read / x224::Client::read over an in-memory transport and compared frame by frame (kind, security flags, payload, bytes left in the transport) with an independent reference deframer. Exhaustive within these bounds, no sampling.",
          "Trusted: the reference deframer (vref::framing, validated by unit vectors), the in-memory Read. Undefined first bytes (action bits 1/2) are executed for totality only. Streams are three frames long; payload contents are position-coded, not enumerated.", "§4 C13"),
